@@ -227,16 +227,28 @@ pub fn seq_core(tier: Tier, base: &[&'static str]) -> Vec<Scenario> {
 /// smaller depth, so the exploration ends when no new state can be reached;
 /// `horizon` is only a safety net and is reported as a cap if it is ever hit.
 pub fn reach_scenarios(tier: Tier, base: &[&'static str], resize: bool, close: bool) -> Vec<Scenario> {
+    reach_scenarios_mode(tier, base, resize, close, false)
+}
+
+pub fn reach_scenarios_mode(tier: Tier, base: &[&'static str], resize: bool, close: bool, lifo: bool) -> Vec<Scenario> {
     let b = bounds(tier);
     let mut v = Vec::new();
-    let shapes: Vec<(usize, usize, usize)> = if b.thorough { vec![(1, 2, 0), (1, 3, 1), (2, 2, 1), (2, 3, 2)] } else { vec![(1, 2, 0), (2, 2, 1)] };
-    for (ms, tasks, prefill) in shapes {
+    // (max_size, concurrent gets, idle objects at the start, hook layout, rich menus)
+    let shapes: Vec<(usize, usize, usize, u8, bool)> = if b.thorough {
+        vec![(1, 2, 0, 0, true), (1, 3, 1, 0, true), (2, 2, 1, 0, true), (2, 3, 2, 0, true), (3, 3, 2, 0, false), (2, 3, 1, 2, false), (2, 2, 2, 3, true), (0, 2, 0, 0, true)]
+    } else {
+        vec![(1, 2, 0, 0, true), (2, 2, 1, 0, true), (2, 3, 2, 0, false), (1, 2, 1, 2, false), (0, 2, 0, 0, true)]
+    };
+    for (ms, tasks, prefill, layout, rich) in shapes {
         let mut c = PoolCfg::simple(ms);
-        c.create_menu = vec![Out::Ok, Out::Err, Out::PendOk];
-        c.recycle_menu = vec![Out::Ok, Out::Err, Out::PendOk];
+        c.lifo = lifo;
+        let menu: Vec<Out> = if rich { vec![Out::Ok, Out::Err, Out::PendOk, Out::PendErr, Out::Never, Out::Panic] } else { vec![Out::Ok, Out::Err, Out::PendOk] };
+        c.create_menu = menu.clone();
+        c.recycle_menu = menu.clone();
+        c = with_hooks(c, layout, &[Out::Ok, Out::Err, Out::PendOk]);
         let mut sc = SeqScenario::new(c, 0, base);
         sc.max_tasks = tasks;
-        sc.prefill = prefill;
+        sc.prefill = prefill.min(ms);
         sc.take = true;
         sc.retain = !resize && !close;
         sc.gets_nonblocking = true;
@@ -250,9 +262,16 @@ pub fn reach_scenarios(tier: Tier, base: &[&'static str], resize: bool, close: b
                 sc.resize_targets = vec![0, 2];
             }
         }
-        let sc = sc.reachability(if b.thorough { 60 } else { 40 });
+        let sc = sc.breadth_first();
         let tag = format!("{}{}", if resize { "+resize" } else { "" }, if close { "+close" } else { "" });
-        v.push(seq(&format!("reach{}/ms{}/tasks{}/prefill{}", tag, ms, tasks, prefill), "all reachable abstract states (unbounded history depth): every operation, environment answer and abandonment from every state until no new state appears; each new state also gets the stop-and-probe branch", 0, sc));
+        let mut s = seq(
+            &format!("reach{}{}/ms{}/tasks{}/idle{}/hooks{}{}", tag, if lifo { "/lifo" } else { "" }, ms, tasks, prefill.min(ms), layout, if rich { "/rich" } else { "" }),
+            "all reachable abstract states, breadth first to closure (unbounded history depth): from every state every operation, every environment answer (ok / error / delayed / never / panic where 'rich') and abandonment, plus the stop-and-probe branch; ends when a level finds no new state",
+            0,
+            sc,
+        );
+        s.bfs = true;
+        v.push(s);
     }
     v
 }
@@ -654,16 +673,34 @@ pub fn spec_for(prop: &str, tier: Tier) -> Option<CheckSpec> {
         "bounded: the listed scenarios, at most 3 actors / 3 concurrent gets, max_size <= 3, at most 2 hooks per kind".to_string(),
     ];
     let scenarios = match prop {
-        "C01" => conc_core(tier, &["C01"]),
+        "C01" => {
+            let mut v = conc_core(tier, &["C01"]);
+            v.extend(reach_scenarios(tier, &["C01"], false, false));
+            v
+        }
         "C02" => {
             let mut v = conc_core(tier, &["C02"]);
             v.extend(seq_core(tier, &["C02"]));
             v.extend(reach_scenarios(tier, &["C02"], false, false));
             v
         }
-        "C03" => c03_scenarios(tier),
-        "C04" => c04_scenarios(tier, &["C04"]),
-        "C13" => c04_scenarios(tier, &["C13"]),
+        "C03" => {
+            let mut v = c03_scenarios(tier);
+            v.extend(reach_scenarios(tier, &["C03"], false, false));
+            v
+        }
+        "C04" => {
+            let mut v = c04_scenarios(tier, &["C04"]);
+            v.extend(reach_scenarios(tier, &["C04"], false, false));
+            v.extend(reach_scenarios_mode(tier, &["C04"], false, false, true));
+            v
+        }
+        "C13" => {
+            let mut v = c04_scenarios(tier, &["C13"]);
+            v.extend(reach_scenarios(tier, &["C13"], false, false));
+            v.extend(reach_scenarios_mode(tier, &["C13"], false, false, true));
+            v
+        }
         "C06" => {
             let mut v = c06_scenarios(tier);
             v.extend(reach_scenarios(tier, &["C06"], false, true));
@@ -674,7 +711,12 @@ pub fn spec_for(prop: &str, tier: Tier) -> Option<CheckSpec> {
             v.extend(reach_scenarios(tier, &["C07"], true, false));
             v
         }
-        "C08" => c08_scenarios(tier),
+        "C08" => {
+            let mut v = c08_scenarios(tier);
+            v.extend(reach_scenarios(tier, &["C08"], true, false));
+            v.extend(reach_scenarios_mode(tier, &["C08"], true, false, true));
+            v
+        }
         "C09" => {
             let mut v = c09_scenarios(tier);
             v.extend(reach_scenarios(tier, &["C09"], false, false));
